@@ -731,10 +731,17 @@ def r13(F, rep, rid="C13-R13"):
                 continue
             n += 1
             ident = False
+            res = X.const_locals(f)
+
+            def expand(node, depth=0):
+                for x in f.walk(node):
+                    yield x
+                    if x["k"] == "DeclRefExpr" and x.get("d") in res and depth < 4:
+                        yield from expand(res[x["d"]], depth + 1)
             for cn, pol in all_guards(f, c):
                 if not pol:
                     continue
-                for x in f.walk(cn):
+                for x in expand(cn):
                     if x["k"] == "BinaryOperator" and x.get("op") == "==":
                         ts = [f.typestr(X.strip(k).get("t")) if X.strip(k).get("t") is not None else "" for k in X.kids(x)]
                         if all(t.rstrip().endswith("*") or t.rstrip().endswith("*const") for t in ts):
